@@ -162,6 +162,17 @@ func init() {
 					om.Replace(fmt.Sprint("k", i), fmt.Sprint("k", i+1), "renamed")
 				}
 			}
+			// values nested in the shared map: lists holding ordered maps (whose keys are not sorted), at two depths
+			{
+				inner := func() *ordered.MapSA {
+					m := ordered.NewMap[string, any](0)
+					m.Set("zulu", 1)
+					m.Set("mike", []any{"x"})
+					m.Set("alpha", "a")
+					return m
+				}
+				om.Set("nested-list", []any{inner(), "scalar", []any{inner()}})
+			}
 			// (the dump of the shared map is taken now, before anything has observed it)
 			omBefore := c19snapshot(om)
 			om2 := ordered.NewMap[string, any](0)
@@ -247,6 +258,7 @@ func init() {
 							errs[i] = "Equal false"
 						}
 						om.ToMap()
+						ordered.ToMapRecursive(om) // a conversion is an observer too: the result is new, the source stays
 						if _, err := json.Marshal(om); err != nil {
 							errs[i] = err.Error()
 						}
